@@ -153,6 +153,7 @@ package repository
 // lastCreated name the last one. Opening and reading change nothing.
 //@ ghost var storageRemoves int
 //@ ghost var lastRemoved string
+//@ ghost var lastRemoveOK bool
 //@ ghost var storageCreates int
 //@ ghost var lastCreated string
 // (the file operations themselves are methods of go-billy's Basic interface: their contracts are in
@@ -333,3 +334,27 @@ package repository
 //@   loop 3
 //@     invariant (ref in refs) && refs == old(refs) && (result == nil || fresh(result))
 //@     invariant forall k int :: { result[k] } 0 <= k && k < len(result) ==> anc(result[k], refs[ref])
+
+// Reading a tree back (C04: what was stored reads back identically): one entry per stored entry, in the stored
+// order, with the stored name and hash, and the kind that StoreTree maps to the stored mode (directory <-> tree).
+//@ func (*GoGitRepo).ReadTree
+//@   props C04
+//@   check [entries-read-back-in-order] result1 == nil ==> len(result) == len(tree.Entries) && (forall k int :: { result[k] } 0 <= k && k < len(result) ==> result[k].Name == tree.Entries[k].Name && result[k].Hash == Hash(tree.Entries[k].Hash.String()) && (result[k].ObjectType == Tree) == (tree.Entries[k].Mode == filemode.Dir) && (result[k].ObjectType == Tree || result[k].ObjectType == Blob))
+//@   loop 1
+//@     invariant len(treeEntries) == len(tree.Entries) && fresh(treeEntries)
+//@     invariant forall k int :: { treeEntries[k] } 0 <= k && k <= rangeindex ==> treeEntries[k].Name == tree.Entries[k].Name && treeEntries[k].Hash == Hash(tree.Entries[k].Hash.String()) && (treeEntries[k].ObjectType == Tree) == (tree.Entries[k].Mode == filemode.Dir) && (treeEntries[k].ObjectType == Tree || treeEntries[k].ObjectType == Blob)
+
+// Reading a commit back (C04, C08): it carries the hash asked for, every parent in stored order, the tree, and - when
+// the stored commit is signed - the data the signature covers and the signature (a signed commit never reads back as
+// an unsigned one: the reader above would then accept it without any check for an author without keys in force).
+//@ func (*GoGitRepo).ReadCommit
+//@   props C04 C08
+//@   check [the-commit-asked-for] result1 == nil ==> result.Hash == hash && result.TreeHash == Hash(commit.TreeHash.String()) && len(result.Parents) == len(commit.ParentHashes) && (forall k int :: { result.Parents[k] } 0 <= k && k < len(result.Parents) ==> result.Parents[k] == Hash(commit.ParentHashes[k].String()))
+//@   check [a-signed-commit-reads-back-signed] result1 == nil && commit.PGPSignature != "" ==> result.SignedData != nil && result.Signature != nil
+//@   loop 1
+//@     invariant len(parents) == len(commit.ParentHashes) && fresh(parents)
+//@     invariant forall k int :: { parents[k] } 0 <= k && k <= rangeindex ==> parents[k] == Hash(commit.ParentHashes[k].String())
+//@ func deArmorSignature
+//@   trusted
+//@   modifies nothing
+//@   ensures result1 == nil ==> result != nil
